@@ -45,6 +45,13 @@ pub struct SaleCase {
     pub pal: u32,
     pub wl: bool,
     pub wl_price: u128,
+    /// whitelist window relative to creation in seconds (default: inside the first two thirds
+    /// of the time before the public start); may overlap the public sale
+    #[serde(default)]
+    pub wl_window: Option<(u64, u64)>,
+    /// tiered kind (one stage) instead of the plain / flex kind
+    #[serde(default)]
+    pub wl_tiered: bool,
     pub steps: Vec<Step>,
 }
 
@@ -148,9 +155,14 @@ fn cfg_of(c: &SaleCase) -> SaleCfg {
     cfg.price = c.price;
     cfg.start_in_secs = c.start_in;
     if c.wl {
-        cfg.wl = if VARIANTS[c.variant].flex { WlKind::Flex } else { WlKind::Plain };
+        cfg.wl = match (VARIANTS[c.variant].flex, c.wl_tiered) {
+            (true, false) => WlKind::Flex,
+            (true, true) => WlKind::TieredFlex,
+            (false, false) => WlKind::Plain,
+            (false, true) => WlKind::Tiered,
+        };
         cfg.wl_price = c.wl_price;
-        cfg.wl_windows = vec![(c.start_in / 3, 2 * c.start_in / 3)];
+        cfg.wl_windows = vec![c.wl_window.unwrap_or((c.start_in / 3, 2 * c.start_in / 3))];
         cfg.wl_limit = 3;
         cfg.wl_flex_count = 3;
     }
@@ -441,6 +453,18 @@ impl Driver {
                         if paid > public_b {
                             let key = self.overcharge_key(paid, &b.cfg);
                             self.violate(key, format!("public Mint by {} accepted only with {} while the advertised public price is {}", who, paid, public_b));
+                        }
+                    }
+                    // while the attached whitelist is active a mint is a whitelist mint and costs the whitelist's price
+                    if b.wl_active {
+                        if let Some(wc) = b.cfg["whitelist"].as_str().and_then(|wl| self.w.app.wrap().query_wasm_smart::<Value>(wl.to_string(), &json!({"config": {}})).ok()) {
+                            let paid: u128 = funds.iter().map(|f| f.1).sum();
+                            if paid != amount_of(&wc["mint_price"]) {
+                                self.violate(
+                                    "C07:whitelist-mint-not-charged-whitelist-price",
+                                    format!("Mint by {} during the active whitelist accepted with {} while the whitelist price is {}", who, paid, amount_of(&wc["mint_price"])),
+                                );
+                            }
                         }
                     }
                     if let Some(e) = unchanged_except(&[]) {
@@ -837,7 +861,7 @@ fn set_wl(variant: usize, start_in: u64, end_in: u64, price: u128, ibc: bool) ->
 }
 
 fn base_case(variant: usize) -> SaleCase {
-    SaleCase { variant, ibc: false, min_price: 50, price: 100, start_in: 1000, num_tokens: 60, pal: 3, wl: false, wl_price: 60, steps: vec![] }
+    SaleCase { variant, ibc: false, min_price: 50, price: 100, start_in: 1000, num_tokens: 60, pal: 3, wl: false, wl_price: 60, wl_window: None, wl_tiered: false, steps: vec![] }
 }
 
 /// curated minimal histories, every one for each of the six variants
@@ -956,6 +980,39 @@ fn corpus() -> Vec<Case> {
             probe(BUYERS[0]),
         ];
         v.push(Case::Sale(e));
+        // (F) a whitelist that is still active after the public start: discount set / removed /
+        // set again and the public price lowered INSIDE the window; the quote and the charge
+        // of a member stay the whitelist's price, the discount applies only once it is over
+        for tiered in [false, true] {
+            let mut f = base_case(variant);
+            f.wl = true;
+            f.wl_tiered = tiered;
+            f.wl_window = Some((900, 100_000));
+            let t1 = start;
+            let t2 = t1 + H1;
+            let t3 = t2 + H12;
+            f.steps = vec![
+                at(950 * S),
+                probe(BUYERS[0]),                   // whitelist active, before the public start: 60
+                at(t1),
+                udp(80),                            // accepted (started); the whitelist is still active
+                probe(BUYERS[0]),                   // member: still 60, not 80, not 100
+                probe(STRANGER),                    // not a member: nothing is sold to them
+                ump(90),                            // public price lowered inside the window
+                probe(BUYERS[1]),
+                at(t2),
+                rdp(),
+                probe(BUYERS[1]),
+                at(t3),
+                udp(70),
+                ump(75),
+                probe(BUYERS[0]),
+                at(100_000 * S),                    // whitelist over: the discount applies
+                probe(BUYERS[2]),
+                probe(BUYERS[0]),
+            ];
+            v.push(Case::Sale(f));
+        }
         // creation at the boundary, through the world constructor and through extra messages
         for (ibc, wp) in [(false, 49u128), (false, 50), (true, 49), (true, 51)] {
             v.push(Case::Create(CreateCase {
@@ -993,6 +1050,9 @@ fn gen_sale(rng: &mut Rng, variant: usize) -> SaleCase {
         pal: 3,
         wl,
         wl_price: min_price + 5,
+        // half of the whitelists stay active into the public sale
+        wl_window: if wl && rng.chance(1, 2) { Some((2500, 3000 + *rng.pick(&[600u64, 50_000, 100_000]))) } else { None },
+        wl_tiered: wl && rng.chance(1, 3),
         steps: vec![],
     }
 }
